@@ -208,6 +208,8 @@ def absorb_k(out, prop, ob, rec):
     meta = K_HARNESSES[ob["harness"]]
     out.functions.update(meta["functions"])
     out.assume(*meta["assumptions"])
+    out.assume("std::alloc::dealloc stubbed as a no-op in every Kani harness (memory is never freed: safe Rust cannot observe a free, and "
+               "CBMC's allocator model otherwise raises spurious, build-dependent assertions)")
     out.bounds[ob["name"]] = "%s; %s; unwinding assertions on" % (
         meta["bound"], " ".join("%s=%s" % kv for kv in sorted(ob["bounds"].items())))
     summary = {("kani_verdict" if k == "verdict" else k): rec.get(k) for k in ("verdict", "time_s", "wall_s", "checks_total", "checks_failed",
